@@ -266,6 +266,23 @@ func (vc *FnVC) applyContract(con *Contract, desc, wit string, callee *ssa.Funct
 		}
 	}
 	env.cur = vc.st
+	if vc.afterHavoc {
+		// encapsulated object invariants hold again whenever control is back in a function that never writes the fields
+		vc.afterHavoc = false
+		for _, p := range vc.fn.Params {
+			vc.assumeTypeInv(vc.regs[p], false)
+		}
+		for _, fv := range vc.freeVars {
+			if pt, ok := fv.Type().Underlying().(*types.Pointer); ok {
+				if _, isPtr := pt.Elem().Underlying().(*types.Pointer); isPtr {
+					// captured pointer variable: its current content
+					key, _ := vc.boxKey(pt.Elem())
+					cv := Val{sSelect(vc.cur(key), vc.regs[fv].S), pt.Elem(), SInt}
+					vc.assumeTypeInv(cv, false)
+				}
+			}
+		}
+	}
 	for i, r := range results {
 		env.vars[resNames[i]] = r
 		env.vars[fmt.Sprintf("r%d", i)] = r
@@ -353,11 +370,21 @@ func (vc *FnVC) flushSide(env *SpecEnv) {
 func (vc *FnVC) havocAll() {
 	vc.epochN++
 	vc.st.epoch = vc.epochN
+	pres := map[string]string{}
+	for _, k := range vc.keyOrd {
+		if isHeapKey(k) && vc.immutableKey(k) {
+			pres[k] = vc.cur(k)
+		}
+	}
 	for k := range vc.st.vars {
 		if isHeapKey(k) && !vc.eng.immutableGlobalKey(k) {
 			delete(vc.st.vars, k)
 		}
 	}
+	for k, v := range pres {
+		vc.st.vars[k] = v // immutable syntax-tree data survives any call
+	}
+	vc.afterHavoc = true
 	ak := vc.allocKey()
 	na := vc.fresh("alloc", SInt)
 	vc.assume(sx("<=", vc.cur(ak), na))
